@@ -262,6 +262,17 @@ fn verif_native_c13_conventions() {
                 Err(e) => check(format!("{pi}k0"), false, e, &mut fails, &mut ids, &mut n),
             }
         }
+        // offsets are added AFTER scaling: k_0 scales the unshifted coordinates only
+        if accepts_shared && !base.starts_with("laea") {
+            match fwd_all(&mut ctx, &format!("{base} k_0=0.9996 x_0=500000 y_0=-10000000"), pts) {
+                Ok(r) => {
+                    let e: Vec<Coor4D> = r0.iter().map(|c| Coor4D([c[0] * 0.9996 + 500000.0, c[1] * 0.9996 - 10000000.0, c[2], c[3]])).collect();
+                    let d = max_diff(&r, &e);
+                    check(format!("{pi}k0xy0"), d <= 1e-6, format!("`{base}`: with k_0 and x_0/y_0 together the result is not k_0 x unshifted + offsets (max deviation {d:.3e} m)"), &mut fails, &mut ids, &mut n);
+                }
+                Err(e) => check(format!("{pi}k0xy0"), false, e, &mut fails, &mut ids, &mut n),
+            }
+        }
         // scaling the semi-major axis scales the result (GRS80: a=6378137 rf=298.257222101)
         let e1 = fwd_all(&mut ctx, &format!("{base} ellps=6378137,298.257222101"), pts);
         let e2 = fwd_all(&mut ctx, &format!("{base} ellps=12756274,298.257222101"), pts);
